@@ -92,10 +92,18 @@ def build_harness(ctx, faketime=False):
         if faketime:
             env["CGO_ENABLED"] = "0"
             tags = "verif,faketime"
-        if os.path.exists(out):
-            os.remove(out)          # never run a stale binary
+        # never run a stale binary - and never take the binary away from a check that runs at the same time: build next to
+        # it and rename over it (atomic; a process that is executing the old file keeps it)
+        tmp = f"{out}.new.{os.getpid()}"
         cover = ["-cover", "-coverpkg=vharness,github.com/diiyw/nodis/..."] if os.environ.get("VERIF_COVER") else []   # bin/coverage.py only
-        rc, so, se = sh(["go", "build", *cover, "-tags", tags, "-o", out, "."], cwd=hdir, env=env, timeout=1500)
+        rc, so, se = sh(["go", "build", *cover, "-tags", tags, "-o", tmp, "."], cwd=hdir, env=env, timeout=1500)
+        if rc == 0:
+            os.replace(tmp, out)
+        else:
+            if os.path.exists(tmp):
+                os.remove(tmp)
+            if os.path.exists(out):
+                os.remove(out)      # the tree does not build: nothing may be run
     if rc != 0:
         ctx.log("HARNESS BUILD FAILED\n" + se[-4000:])
         raise SystemExit(harness_error(ctx, "go build of the harness against /repo failed:\n" + se[-2000:]))
